@@ -1,9 +1,9 @@
 package main
 
 import (
-	"github.com/fxamacker/cbor/v2"
 	"context"
 	"fmt"
+	"github.com/fxamacker/cbor/v2"
 	"math/big"
 	"net/netip"
 	"strings"
@@ -162,11 +162,11 @@ func (g *c06Cfg) admitsSpec(proto, port int, sender netip.Addr) bool {
 }
 
 type c06Pkt struct {
-	ver            int
-	src, dst       netip.Addr
-	proto          int
-	sport, dport   int
-	length         int
+	ver          int
+	src, dst     netip.Addr
+	proto        int
+	sport, dport int
+	length       int
 }
 
 func (p c06Pkt) bytes(c *Ctx) []byte {
@@ -352,8 +352,8 @@ func runC06(c *Ctx) error {
 		R.ro.VerifSetHandleTraffic(handle)
 		// sessions with every sender, real key exchange
 		type sess struct {
-			n    *node
-			atS  interface{ Seal(f frame.Frame) error }
+			n   *node
+			atS interface{ Seal(f frame.Frame) error }
 		}
 		sealers := make([]func(f frame.Frame) error, len(senders))
 		for i, s := range senders {
@@ -559,7 +559,20 @@ func runC06(c *Ctx) error {
 				}
 			}
 			for k, n := 0, 3+c.Rng.IntN(5); k < n; k++ {
-				switch c.Rng.IntN(5) {
+				switch c.Rng.IntN(6) {
+				case 5:
+					// an authentic ping of another kind from the sender (a pong request): no effect on connection states
+					spec := pingSpec{from: S.id, dst: selfID.IP, msgType: frame.RouterPing, pingType: "pong", seqTime: nextCraftTime(), pingID: uint64(900 + k)}
+					spec.body, _ = cbor.Marshal(map[string]string{"msg": "ping"})
+					if d, err := craftPing(spec); err == nil {
+						R.inject(d, nil)
+						w.queue = nil
+						R.tunRaw()
+						c.Eval()
+					}
+					hsteps = append(hsteps, fmt.Sprintf("(HPing %s,false)", ipN(S.id.IP)))
+					htrace = append(htrace, "pong-request")
+					sendIn()
 				case 4:
 					// time passes without traffic (11 s: past the error cooldown and the short-lived
 					// limit; 11 min: past the removal limit) and the periodic cleaner runs
